@@ -40,6 +40,11 @@ pub struct PCase {
   /// (0 = immediately): inputs may have emitted or terminated by then
   #[serde(default)]
   pub sub_at: usize,
+  /// subscribe with the library's closure idiom
+  /// `.on_error(e).on_complete(c).subscribe(n)` (all three closures record into
+  /// the one log) instead of a by-value probe observer
+  #[serde(default)]
+  pub closure_subscriber: bool,
 }
 
 #[derive(Default, Debug)]
@@ -162,10 +167,24 @@ fn run_pipeline_inner(case: &PCase, mut pool: Option<&mut futures::executor::Loc
       None
     }
   };
+  let closures = case.closure_subscriber;
   let subscribe = |p: Pending, log: &Arc<ProbeLog>| -> Result<Handle, String> {
-    catch_unwind(AssertUnwindSafe(|| match p {
-      Pending::L(o) => Handle::L(o.actual_subscribe(Probe(log.clone()))),
-      Pending::S(o) => Handle::S(o.actual_subscribe(Probe(log.clone()))),
+    catch_unwind(AssertUnwindSafe(|| {
+      let (l1, l2, l3) = (log.clone(), log.clone(), log.clone());
+      match (p, closures) {
+        (Pending::L(o), false) => Handle::L(o.actual_subscribe(Probe(log.clone()))),
+        (Pending::S(o), false) => Handle::S(o.actual_subscribe(Probe(log.clone()))),
+        (Pending::L(o), true) => Handle::L(BoxSubscription::new(
+          o.on_error(move |e: E| Observer::<Val, E>::error(Probe(l1), e))
+            .on_complete(move || Observer::<Val, E>::complete(Probe(l2)))
+            .subscribe(move |v: Val| Observer::<Val, E>::next(&mut Probe(l3.clone()), v)),
+        )),
+        (Pending::S(o), true) => Handle::S(BoxSubscriptionThreads::new(
+          o.on_error(move |e: E| Observer::<Val, E>::error(Probe(l1), e))
+            .on_complete(move || Observer::<Val, E>::complete(Probe(l2)))
+            .subscribe(move |v: Val| Observer::<Val, E>::next(&mut Probe(l3.clone()), v)),
+        )),
+      }
     }))
     .map_err(|p| format!("while subscribing: {}", panic_message(&*p)))
   };
